@@ -290,11 +290,8 @@ def _blocks(interp, seq: V.SymSeq, length_of):
     ps = P.prefix_sum(interp, lens)
 
     def locate(c):
-        """fresh block index j with off(j) <= c < off(j+1)   (for 0 <= c < total)"""
-        j = cx.fresh_int("blk")
-        cx.assume(z3.Implies(z3.And(0 <= c, c < ps.total()),
-                             z3.And(0 <= j, j < lift(seq.length), ps.off(j) <= c, c < ps.off(j + 1))), tag="cat-block-lookup")
-        return j
+        """index of the block containing position c (canonical function of the prefix-sum object)"""
+        return ps.blk(c)
     return ps, locate
 
 
@@ -582,9 +579,7 @@ def l_autograd_grad(interp, outputs, inputs, grad_outputs=None, retain_graph=Non
         """cotangent entry for the r-th flattened output scalar"""
         if gseq is None:
             return ONE
-        j = cx.fresh_int("cj")
-        cx.assume(z3.Implies(z3.And(0 <= r, r < R), z3.And(0 <= j, j < lift(oseq.length), ps.off(j) <= r, r < ps.off(j + 1))),
-                  tag="cat-block-lookup")
+        j = ps.blk(r)
         return gseq.get(j).elem([r - ps.off(j)])
 
     def grad_for(k):
